@@ -117,7 +117,7 @@ Qed.
 (* ---------- struct / union / exception bodies ---------- *)
 Theorem struct_like_inv i r a : p_struct_like lf df i = POk r a ->
   exists c, i = pr_struct_like c r /\ erase_struct c = a /\ (ok_fields (cs_fields c) = true -> wf_struct (is_nil r) c = true) /\
-            (tail_open (cs_tail c) = true -> noblank r) /\ (t_sep (cs_tail c) = SepNone -> nosep r = true).
+            (tail_open (cs_tail c) = true -> noblank r) /\ whead (pr_struct_like c r).
 Proof.
   rewrite p_struct_like_eq. intros H. binv H. inversion H; subst.
   destruct (ident_inv _ _ _ E) as [-> [Hname _]]. destruct (oblank_inv _ _ _ _ E0) as [b1 [-> [K1 _]]].
@@ -126,7 +126,9 @@ Proof.
   destruct (tail_inv _ _ _ _ _ _ _ _ E5 E6 E7) as [tl [-> [Ean [Wtl [Hop [Hsn _]]]]]].
   eexists (mkCStruct _ b1 b0 fs tl). unfold pr_struct_like, erase_struct, wf_struct. cbn [cs_name cs_b1 cs_b0 cs_fields cs_tail].
   change sym_struct_open with (txt "{"). change sym_struct_close with (txt "}"). rewrite Ean. split; [reflexivity|]. repeat split; auto.
-  intros Hok. rewrite Hname, (blank_ok_nonnil _ _ K1) by discriminate. now rewrite W0, (Wf Hok), Wtl.
+  - intros Hok. rewrite Hname, (blank_ok_nonnil _ _ K1) by discriminate. now rewrite W0, (Wf Hok), Wtl.
+  - match type of Hname with is_ident ?x = true => destruct x as [|h0 tl0]; [discriminate|] end.
+    cbn [is_ident] in Hname. apply andb_prop in Hname. destruct Hname as [Hh _]. eexists h0, _. split; [reflexivity|now apply identch_head].
 Qed.
 
 (* ---------- enum values ---------- *)
@@ -462,6 +464,105 @@ Proof.
     + apply (blank_ok_nonnil _ _ K3). discriminate.
   - intros Hb. bsplit Hb. apply is_nil_true in Hb. subst b3. destruct an; [discriminate|]. destruct sp; [|discriminate].
     cbn [pr_blank pr_tail2 pr_sep] in Hnid. exact Hnid.
+Qed.
+
+(* ---------- items ---------- *)
+Definition ok_item (it : citem) : bool :=
+  match it with
+  | CITypedef t => heads_ok_type (ctd_type t)
+  | CIConst c => heads_ok_type (ck_type c) && cok_const (ck_val c)
+  | CIEnum e => ok_enumvals (ce_vals e)
+  | CIStruct _ _ s => ok_fields (cs_fields s)
+  | CIService s => forallb (fun e : fnel => ok_function (snd e)) (sv_fns s)
+  | _ => true
+  end.
+Definition is_const (it : citem) : bool := match it with CIConst _ => true | _ => false end.
+
+Definition ahead (x : list byte) : Prop := exists b0 rest, x = b0 :: rest /\ is_alpha b0 = true.
+
+Definition itemP (it : citem) (r : list byte) : Prop :=
+  (ok_item it = true -> wf_item (is_nil r) it = true) /\ (item_open it = true -> noblank r) /\
+  (item_ends_word it = true -> is_const it = false -> nid r = true) /\ ahead (pr_item it r).
+
+Lemma item_keyword_inv i r kw : p_item_keyword i = POk r kw -> r = i.
+Proof. unfold p_item_keyword, peek. destruct (recognize _ i); intros H; inversion H; reflexivity. Qed.
+
+Lemma struct_kw_inv (p : parser StructLike) kw i r a :
+  (forall i, p i = (do i, _ <- tag kw i ;; do i, _ <- p_blank lf i ;; p_struct_like lf df i)) -> p i = POk r a ->
+  exists b c, i = kw ++ pr_blank b (pr_struct_like c r) /\ erase_struct c = a /\ wf_blank b = true /\ b <> [] /\
+              (ok_fields (cs_fields c) = true -> wf_struct (is_nil r) c = true) /\ (tail_open (cs_tail c) = true -> noblank r).
+Proof.
+  intros Hp H. rewrite Hp in H. apply pbind_ok in H. destruct H as [j1 [u1 [T H]]]. apply pbind_ok in H. destruct H as [j2 [u2 [B H]]].
+  apply tag_inv in T. destruct T as [-> _]. destruct (blank_inv _ _ _ _ B) as [b [-> [Nb [Kb _]]]].
+  destruct (struct_like_inv _ _ _ H) as [c [-> [<- [Hw [Hop Hh]]]]]. exists b, c. repeat split; auto.
+  apply (blank_ok_nonnil _ _ Kb), whead_nonnil, Hh.
+Qed.
+
+Lemma ahead_txt (w k : list byte) : hd_sat is_alpha w = true -> w <> [] -> ahead (w ++ k).
+Proof. intros H Hn. destruct w as [|c w]; [contradiction|]. exists c, (w ++ k). auto. Qed.
+
+Theorem item_inv i r a : p_item lf df i = POk r a -> exists it, i = pr_item it r /\ erase_item it = a /\ itemP it r.
+Proof.
+  unfold p_item. intros H. apply pbind_ok in H. destruct H as [i' [kw [E H]]]. apply item_keyword_inv in E. subst i'.
+  destruct (bytes_eqb kw arm_include).
+  { apply pmap_ok in H. destruct H as [l [H ->]].
+    destruct (include_gen_inv (p_include lf) kw_include _ _ _ ltac:(reflexivity) H) as [b [cl [s [-> [<- [Wb [Nb [Wl [Ws Hn]]]]]]]]].
+    exists (CIInclude b cl s). unfold itemP. cbn [pr_item erase_item ok_item wf_item item_open item_ends_word is_const].
+    change kw_include with (txt "include"). repeat split; auto; try discriminate.
+    - intros _. rewrite Wb, Wl, Ws. destruct b; [contradiction|reflexivity].
+    - intros Ho. apply Hn. now apply negb_true_iff in Ho.
+    - apply ahead_txt; [reflexivity|discriminate]. }
+  destruct (bytes_eqb kw arm_cpp_include).
+  { apply pmap_ok in H. destruct H as [l [H ->]].
+    destruct (include_gen_inv (p_cpp_include lf) kw_cpp_include _ _ _ ltac:(reflexivity) H) as [b [cl [s [-> [<- [Wb [Nb [Wl [Ws Hn]]]]]]]]].
+    exists (CICppInclude b cl s). unfold itemP. cbn [pr_item erase_item ok_item wf_item item_open item_ends_word is_const].
+    change kw_cpp_include with (txt "cpp_include"). repeat split; auto; try discriminate.
+    - intros _. rewrite Wb, Wl, Ws. destruct b; [contradiction|reflexivity].
+    - intros Ho. apply Hn. now apply negb_true_iff in Ho.
+    - apply ahead_txt; [reflexivity|discriminate]. }
+  destruct (bytes_eqb kw arm_namespace).
+  { apply pmap_ok in H. destruct H as [n [H ->]]. destruct (namespace_inv _ _ _ H) as [c [-> [<- [Wn [Nr Hnid]]]]].
+    exists (CINamespace c). unfold itemP. cbn [pr_item erase_item ok_item wf_item item_open item_ends_word is_const]. repeat split; auto.
+    unfold pr_namespace. apply ahead_txt; [reflexivity|discriminate]. }
+  destruct (bytes_eqb kw arm_typedef).
+  { apply pmap_ok in H. destruct H as [n [H ->]]. destruct (typedef_inv _ _ _ _ _ H) as [c [-> [<- [Wn [Hop Hnid]]]]].
+    exists (CITypedef c). unfold itemP. cbn [pr_item erase_item ok_item wf_item item_open item_ends_word is_const]. repeat split; auto.
+    unfold pr_typedef. apply ahead_txt; [reflexivity|discriminate]. }
+  destruct (bytes_eqb kw arm_const).
+  { apply pmap_ok in H. destruct H as [n [H ->]]. destruct (constant_inv _ _ _ _ _ H) as [c [-> [<- [Wn Hop]]]].
+    exists (CIConst c). unfold itemP. cbn [pr_item erase_item ok_item wf_item item_open item_ends_word is_const]. repeat split; auto; try discriminate.
+    - intros Hok. apply andb_prop in Hok. destruct Hok. auto.
+    - unfold pr_constant. apply ahead_txt; [reflexivity|discriminate]. }
+  destruct (bytes_eqb kw arm_enum).
+  { apply pmap_ok in H. destruct H as [n [H ->]]. destruct (enum_inv _ _ _ H) as [c [-> [<- [Wn Hop]]]].
+    exists (CIEnum c). unfold itemP. cbn [pr_item erase_item ok_item wf_item item_open item_ends_word is_const]. repeat split; auto; try discriminate.
+    - intros Ho. apply Hop. destruct (ce_anns c); [discriminate|reflexivity].
+    - unfold pr_enum. apply ahead_txt; [reflexivity|discriminate]. }
+  destruct (bytes_eqb kw arm_struct).
+  { apply pmap_ok in H. destruct H as [n [H ->]].
+    destruct (struct_kw_inv (p_struct lf df) kw_struct _ _ _ ltac:(reflexivity) H) as [b [c [-> [<- [Wb [Nb [Wn Hop]]]]]]].
+    exists (CIStruct SKStruct b c). unfold itemP. cbn [pr_item erase_item ok_item wf_item item_open item_ends_word is_const skind_kw].
+    change kw_struct with (txt "struct"). repeat split; auto; try discriminate.
+    - intros Hok. rewrite Wb, (Wn Hok). destruct b; [contradiction|reflexivity].
+    - apply ahead_txt; [reflexivity|discriminate]. }
+  destruct (bytes_eqb kw arm_union).
+  { apply pmap_ok in H. destruct H as [n [H ->]].
+    destruct (struct_kw_inv (p_union lf df) kw_union _ _ _ ltac:(reflexivity) H) as [b [c [-> [<- [Wb [Nb [Wn Hop]]]]]]].
+    exists (CIStruct SKUnion b c). unfold itemP. cbn [pr_item erase_item ok_item wf_item item_open item_ends_word is_const skind_kw].
+    change kw_union with (txt "union"). repeat split; auto; try discriminate.
+    - intros Hok. rewrite Wb, (Wn Hok). destruct b; [contradiction|reflexivity].
+    - apply ahead_txt; [reflexivity|discriminate]. }
+  destruct (bytes_eqb kw arm_exception).
+  { apply pmap_ok in H. destruct H as [n [H ->]].
+    destruct (struct_kw_inv (p_exception lf df) kw_exception _ _ _ ltac:(reflexivity) H) as [b [c [-> [<- [Wb [Nb [Wn Hop]]]]]]].
+    exists (CIStruct SKException b c). unfold itemP. cbn [pr_item erase_item ok_item wf_item item_open item_ends_word is_const skind_kw].
+    change kw_exception with (txt "exception"). repeat split; auto; try discriminate.
+    - intros Hok. rewrite Wb, (Wn Hok). destruct b; [contradiction|reflexivity].
+    - apply ahead_txt; [reflexivity|discriminate]. }
+  destruct (bytes_eqb kw arm_service); [|discriminate].
+  apply pmap_ok in H. destruct H as [n [H ->]]. destruct (service_inv _ _ _ H) as [c [-> [<- [Wn Hop]]]].
+  exists (CIService c). unfold itemP. cbn [pr_item erase_item ok_item wf_item item_open item_ends_word is_const]. repeat split; auto; try discriminate.
+  unfold pr_service. apply ahead_txt; [reflexivity|discriminate].
 Qed.
 
 End Items.
